@@ -177,7 +177,7 @@ def _one(case):
     return {"kind": "miss", "allowed": sorted(set(allowed))[:12]}
 
 
-def conformance(repo, jobs=16, show=10, only=None):
+def conformance(repo, jobs=16, show=10, only=None, functions=None):
     t0 = time.time()
     env = dict(os.environ, PYTHONPATH=os.path.join(repo, "src"), SELFTEST_TESTS=os.path.join(repo, "tests"))
     env.setdefault("VERIF_SEED", "1")
@@ -188,8 +188,11 @@ def conformance(repo, jobs=16, show=10, only=None):
     cases = json.loads(p.stdout)
     if only:
         cases = [c for c in cases if only in c["function"]]
-    with multiprocessing.get_context("fork").Pool(jobs, initializer=_init, initargs=(repo,)) as pool:
-        outs = pool.map(_one, cases, chunksize=10)
+    if functions is not None:
+        cases = [c for c in cases if c["function"] in functions]
+    workers = max(1, min(jobs, (len(cases) + 24) // 25))  # a worker loads the whole tree and the contracts: not worth it for a handful of cases
+    with multiprocessing.get_context("fork").Pool(workers, initializer=_init, initargs=(repo,)) as pool:
+        outs = pool.map(_one, cases, chunksize=5)
     per_fn = {}
     bad = []
     for c, o in zip(cases, outs):
